@@ -281,6 +281,8 @@ class SymReal:
             return SymReal(_simp(r))
         if isinstance(o, (float, np.floating)) and float(o) == 0.5:
             return sym_sqrt(self)
+        if isinstance(o, (float, np.floating)) and (2 * float(o)).is_integer() and abs(float(o)) <= 8:
+            return sym_sqrt(self) ** int(2 * float(o))  # x**(k/2) == sqrt(x)**k on x >= 0 (x < 0 is nan in numpy, Unsupported here)
         ot = lift(o)
         if ot is None:
             return NotImplemented
@@ -364,6 +366,9 @@ class SymReal:
         if n not in (None, 0):
             raise Unsupported("round(ndigits)")
         return sym_rint(self)
+
+    def __bool__(self):  # truth value of a number: x != 0 (a branch point), as for a python float
+        return bool(self != 0)
 
     def __repr__(self):
         return f"S<{self.t}>"
@@ -584,11 +589,19 @@ def sym_sqrt(x):
             r = Fraction(math.isqrt(fr.numerator), math.isqrt(fr.denominator))
             if r * r == fr:
                 return SymReal(_ratval(r))
+        # sqrt is a function: the same (canonicalised) radicand on a path gets the same auxiliary; sqrt_defs maps the
+        # auxiliary's name to its radicand for the differentiator (symgem/diff.py: ds = dt / (2 s))
+        defs = _CTX.__dict__.setdefault("sqrt_defs", {})
+        canon = z3.simplify(x.t, som=True)
+        for nm, (rad, key, aux) in defs.items():
+            if key.get_id() == canon.get_id():
+                return aux
         if not _sum_of_squares(x.t):
             if _CTX.branch(x.t < 0):
                 raise Unsupported("sqrt of a negative symbolic value")
         s = _CTX.fresh_aux("sqrt")
         _CTX.add_axiom(z3.And(s.t >= 0, s.t * s.t == x.t))
+        defs[s.t.decl().name()] = (x.t, canon, s)
         return s
     if isinstance(x, SymBool):
         return x._num()
@@ -731,6 +744,25 @@ def _floor_divide(a, b):
     raise Unsupported("floor_divide on symbolic values")
 
 
+def _remainder(a, b):
+    """numpy.remainder (= numpy.mod): a - floor(a / b) * b, sign of the divisor; the divisor must be a non-zero constant."""
+    if _is_sym(a) or _is_sym(b):
+        if isinstance(b, SymReal) and _is_const(b.t):
+            b = _const_fraction(b.t)
+        if _is_sym(b):
+            raise Unsupported("remainder with a symbolic divisor")
+        if isinstance(b, (float, np.floating)):
+            if not np.isfinite(b):
+                raise Unsupported("remainder by inf/nan")
+            b = Fraction(float(b))
+        if b == 0:
+            raise Unsupported("remainder by zero")
+        if isinstance(a, SymBool):
+            a = a._num()
+        return a - sym_floor(a / b) * b
+    return a % b
+
+
 _UFUNCS = {
     np.add: _op.add, np.subtract: _op.sub, np.multiply: _op.mul, np.true_divide: _op.truediv,
     np.negative: _op.neg, np.positive: _op.pos, np.absolute: _abs, np.power: _op.pow,
@@ -743,7 +775,7 @@ _UFUNCS = {
     np.floor: sym_floor, np.ceil: sym_ceil,
     np.conjugate: _conj, np.logical_and: _logical_and, np.logical_or: _logical_or,
     np.logical_not: _logical_not, np.reciprocal: lambda x: 1.0 / x, np.fabs: _abs,
-    np.floor_divide: _floor_divide,
+    np.floor_divide: _floor_divide, np.remainder: _remainder,
 }
 _BOOL_OUT = {np.less, np.less_equal, np.greater, np.greater_equal, np.equal, np.not_equal, np.isnan,
              np.isinf, np.isfinite, np.logical_and, np.logical_or, np.logical_not}
@@ -801,6 +833,8 @@ class SymArray(np.ndarray):
         if dt.kind in "iu":
             if not has_sym(self):
                 return np.array([int(v) for v in _plain(self).ravel()], dtype=dt).reshape(self.shape)
+            if all((not _is_sym(e)) and float(e).is_integer() or isinstance(e, SymReal) and _is_integral(e.t) for e in _plain(self).ravel()):
+                return self.copy()  # integer storage of integral values is modelled as exact storage
             raise Unsupported("astype(int) on a symbolic array")
         if dt.kind == "b":
             out = np.empty(self.shape, dtype=bool)
@@ -897,6 +931,8 @@ class SymArray(np.ndarray):
             return res
         if method == "reduce" and ufunc in (np.add, np.multiply, np.maximum, np.minimum, np.logical_and, np.logical_or):
             a = ins[0]
+            if not isinstance(a, np.ndarray):  # np.all(SymBool) / np.sum(SymReal): reduction of a bare scalar
+                return _py(a)
             axis = kwargs.get("axis", 0)
             keepdims = kwargs.get("keepdims", False)
             if a.ndim == 0:
@@ -960,7 +996,18 @@ def _matmul(a, b):
     if a.ndim == 0 or b.ndim == 0:
         raise ValueError("matmul: Input operand does not have enough dimensions")
     if a.ndim > 2 or b.ndim > 2:
-        raise Unsupported("matmul with ndim > 2")
+        # stacked matmul (numpy semantics): broadcast the leading axes, multiply the trailing matrices pairwise
+        if a.ndim == 1 or b.ndim == 1:
+            raise Unsupported("stacked matmul with a 1-D operand")
+        if a.shape[-1] != b.shape[-2]:
+            raise ValueError(f"matmul: Input operand 1 has a mismatch in its core dimension 0 (size {b.shape[-2]} is different from {a.shape[-1]})")
+        lead = np.broadcast_shapes(a.shape[:-2], b.shape[:-2])
+        ab = np.broadcast_to(a, lead + a.shape[-2:])
+        bb = np.broadcast_to(b, lead + b.shape[-2:])
+        r = np.empty(lead + (a.shape[-2], b.shape[-1]), dtype=object)
+        for idx in np.ndindex(*lead):
+            r[idx] = _plain(_matmul(ab[idx], bb[idx]))
+        return r.view(SymArray)
     a2 = a if a.ndim > 1 else a.reshape(1, -1)
     b2 = b if b.ndim > 1 else b.reshape(-1, 1)
     if a2.shape[1] != b2.shape[0]:
@@ -1239,6 +1286,36 @@ def _sort(a, *args, **kw):
 
 def _unique(a, *args, **kw):
     raise Unsupported("unique on symbolic arrays")
+
+
+def as_symarray(a):
+    """SymArray from nested lists / arrays of symbolic or concrete scalars (value-preserving)."""
+    if isinstance(a, SymArray):
+        return a
+    if isinstance(a, np.ndarray):
+        return _wrap(a) if a.dtype == object else SymArray(a)
+    if isinstance(a, (list, tuple)):
+        parts = [as_symarray(e) if isinstance(e, (list, tuple, np.ndarray)) else e for e in a]
+        if parts and all(isinstance(e, np.ndarray) for e in parts):
+            shape = parts[0].shape
+            out = np.empty((len(parts), *shape), dtype=object)
+            for i, e in enumerate(parts):
+                out[i] = _plain(e)
+            return out.view(SymArray)
+        out = np.empty(len(parts), dtype=object)
+        for i, e in enumerate(parts):
+            out[i] = e
+        return out.view(SymArray)
+    return _wrap(a)
+
+
+def sym_average(a, axis=None, **kw):
+    """numpy.average for lists of symbolic arrays (module-level stub for code calling average(list))."""
+    return _mean(as_symarray(a), axis=axis)
+
+
+def sym_allclose(a, b, rtol=1e-05, atol=1e-08, equal_nan=False):
+    return _allclose(as_symarray(a), as_symarray(b), rtol, atol, equal_nan)
 
 
 _FUNCS = {
@@ -1639,6 +1716,7 @@ class Explorer(_BaseCtx):
             self.ufs = {}
             self.uf_calls = []
             self.apps = {}
+            self.sqrt_defs = {}  # name of a sqrt auxiliary -> (radicand, canonical radicand, auxiliary), per path
             self.observed = []
             self.solver = z3.Solver()
             self.solver.set("timeout", self.query_timeout_ms)
@@ -1662,7 +1740,7 @@ class Explorer(_BaseCtx):
                 r, m = self._check()
                 if r == z3.sat:
                     self.violations.append(dict(kind="exception", label=f"exception:{type(e).__name__}",
-                                                exc_type=type(e).__name__, message=str(e)[:300], site=_where_raised(e),
+                                                exc_type=type(e).__name__, message=str(e)[:300], site=_where_raised(e), tb=_tb_tail(e),
                                                 model=self.model_dict(m), decisions=list(self.trace)))
                 else:
                     self.inconclusive.append(f"exception on a path of unknown feasibility: {type(e).__name__}: {e}")
@@ -1729,6 +1807,12 @@ def _eval_obs(m, val):
         except Exception:
             out.append(None)
     return dict(shape=list(arr.shape), values=out)
+
+
+def _tb_tail(e, n=6):
+    import traceback
+
+    return [f"{f.filename.split('/gemseo/')[-1]}:{f.lineno}:{f.name}" for f in traceback.extract_tb(e.__traceback__)[-n:]]
 
 
 def _where_raised(e):
